@@ -81,7 +81,7 @@ def answer (line : String) : String :=
     | _, _, _ => "bad-op"
   | ["kate", b, coeffs] =>
     match parseNat? b, parseNatList? coeffs with
-    | some b, some coeffs => fmtFrOpt (kateDivision (frList coeffs) (fr b))
+    | some b, some coeffs => fmtFr (kateDivision (frList coeffs) (fr b))
     | _, _ => "bad-op"
   | ["interp", xs, ys] =>
     match parseNatList? xs, parseNatList? ys with
